@@ -62,13 +62,13 @@ type Line struct {
 
 // Op is one step of the history.
 type Op struct {
-	Kind   string `json:"kind"` // append | pbegin | pend | rotate | sleep | START1 | KILL | START2 | END | TRUNC | WAITIDLE | WAITREAD | WAITIDS
+	Kind   string `json:"kind"` // append | pbegin | pend | rotate | sleep | START1 | KILL | START2 | END | TRUNC | WAITIDLE | WAITREAD | WAITIDS | MARKX | VANISH | WAITGONE | REUSE
 	File   int    `json:"file,omitempty"`
 	Lines  []int  `json:"lines,omitempty"`  // indexes into Scenario.Lines
 	Cut    int    `json:"cut,omitempty"`    // pbegin: number of bytes written first
 	Chunks int    `json:"chunks,omitempty"` // append: number of write calls
 	Ms     int    `json:"ms,omitempty"`
-	Raw    string `json:"raw,omitempty"` // pbegin in truncation scenarios: an unterminated fragment that is never completed
+	Raw    string `json:"raw,omitempty"` // pbegin in truncation scenarios: an unterminated fragment that is never completed; VANISH: unlink | rename-over; WAITSAVED: "X" = the marked file
 }
 
 // Scenario is one execution plan.
@@ -88,6 +88,11 @@ type Scenario struct {
 	// truncation scenarios
 	TruncMode string `json:"trunc_mode,omitempty"` // idle | inflight
 	TruncTail string `json:"trunc_tail,omitempty"` // complete | fragment | blank | garbage
+
+	// inode-reuse scenarios
+	ReuseWhere string `json:"reuse_where,omitempty"` // down | running: when the old file goes away
+	ReuseBy    string `json:"reuse_by,omitempty"`    // unlink | rename-over: how its inode number is freed
+	ReuseEnd   string `json:"reuse_end,omitempty"`   // kill-idle | term | kill-in-flight: how run 1 ends
 }
 
 var hookPoints = []string{
@@ -343,17 +348,21 @@ func (g *gen) initFiles(nFiles int, streamsPerFile func() int) {
 // current physical files so that nothing has to wait for the event time-out.
 func (g *gen) finish() {
 	for f := 0; f < g.s.NFiles; f++ {
-		g.pendOp(f)
-		var term []int
-		for _, st := range g.fileStream[f] {
-			if g.openGroup[f][st] {
-				term = append(term, g.newLine(f, st, "plain"))
-				g.openGroup[f][st] = false
-			}
+		g.finishFile(f)
+	}
+}
+
+func (g *gen) finishFile(f int) {
+	g.pendOp(f)
+	var term []int
+	for _, st := range g.fileStream[f] {
+		if g.openGroup[f][st] {
+			term = append(term, g.newLine(f, st, "plain"))
+			g.openGroup[f][st] = false
 		}
-		if len(term) > 0 {
-			g.add(Op{Kind: "append", File: f, Lines: term, Chunks: 1})
-		}
+	}
+	if len(term) > 0 {
+		g.add(Op{Kind: "append", File: f, Lines: term, Chunks: 1})
 	}
 }
 
@@ -828,6 +837,146 @@ func genDownTrunc(idx int, seed int64, variant int, thorough bool) *Scenario {
 		C = append(C, g.newLine(0, streams[r.Intn(len(streams))], "plain"))
 	}
 	g.add(Op{Kind: "append", File: 0, Lines: C, Chunks: 1 + r.Intn(2)})
+	g.finish()
+	g.add(Op{Kind: "END"})
+	return s
+}
+
+// genInodeReuse builds the directed scenario "a new file obtains the inode
+// number of a file that went away": run 1 reads file X completely and persists
+// its offsets (X's inode is a key of the offsets file); run 1 ends (SIGKILL when
+// idle, SIGTERM, or - thorough - SIGKILL in flight); X goes away the way a
+// rotation with a bounded number of generations drops its oldest generation:
+// either it is unlinked (logrotate `rotate N`) or the next generation is renamed
+// over it (`mv f0.log f0.r1.log` with f0.r1.log = X existing); this happens while
+// file.d is down, or while run 2 is running (after its start phase; the harness
+// then waits for file.d's own "job ... deleted" line). Run 2 is started on the
+// persisted offsets file with offsets_op=continue (the default). After the start
+// phase of run 2 (idle) a new watched file appears that has X's inode number
+// (the harness keeps the number reserved through a hard link outside the
+// watched directory and frees it right before creating the new file; if the
+// file system hands the number to somebody else the scenario is repeated /
+// inconclusive) and is already longer than every offset saved for X (written
+// under an unwatched name and renamed in). Every line of the new file is
+// expected, as are later appends to it.
+func genInodeReuse(idx int, seed int64, variant int, thorough bool) *Scenario {
+	g := newGen(idx, seed, "inodereuse")
+	s := g.s
+	r := g.r
+	s.Cfg = genConfig(r, thorough)
+	if s.Cfg.Chain == "join" {
+		s.Cfg.Chain = "none"
+	}
+	if s.Cfg.AsyncMs > 100 {
+		s.Cfg.AsyncMs = pick(r, 20, 50, 100)
+	}
+	s.Cfg.TickMs = pick(r, 50, 100)
+	where := []string{"down", "running"}[variant%2]
+	by := []string{"unlink", "rename-over"}[(variant/2)%2]
+	end := []string{"kill-idle", "term"}[(variant/4)%2]
+	if thorough && (variant/8)%3 == 2 && by == "unlink" && where == "down" {
+		end = "kill-in-flight"
+	}
+	s.ReuseWhere, s.ReuseBy, s.ReuseEnd = where, by, end
+	nStreams := 1 + r.Intn(3)
+	// logical files: 0 = the name of X (and of its successors), 1 = a bystander, 2 = another name for the new file
+	g.initFiles(3, func() int { return nStreams })
+	g.feature("new-file-on-recycled-inode")
+	g.feature("old-file-gone-" + where)
+	g.feature("inode-freed-by-" + by)
+	streams := g.fileStream[0]
+
+	var X []int
+	nX := 8 + r.Intn(20)
+	if end == "kill-in-flight" {
+		nX = 16 + r.Intn(20)
+	}
+	for i := 0; i < nX; i++ {
+		X = append(X, g.newLine(0, streams[r.Intn(len(streams))], "plain"))
+	}
+	for _, st := range streams { // every stream ends near the end of the file: large saved offsets
+		X = append(X, g.newLine(0, st, "plain"))
+	}
+	sizeX := 0
+	for _, li := range X {
+		sizeX += len(s.Lines[li].Text) + 1
+		if end == "kill-in-flight" {
+			s.Lines[li].Expect = false // the file is deleted while lines of it are undelivered: nobody can deliver them
+		}
+	}
+	preFirst := r.Intn(2) == 0
+	if preFirst {
+		g.add(Op{Kind: "append", File: 0, Lines: X, Chunks: 1 + r.Intn(2)})
+		g.add(Op{Kind: "MARKX", File: 0})
+	}
+	if r.Intn(2) == 0 {
+		g.appendOp(1, 2+r.Intn(8))
+	}
+	g.add(Op{Kind: "START1"})
+	if !preFirst {
+		g.sleepOp(100)
+		g.add(Op{Kind: "append", File: 0, Lines: X, Chunks: 1 + r.Intn(2)})
+		g.add(Op{Kind: "MARKX", File: 0})
+	}
+	if by == "rename-over" {
+		// X becomes the older generation f0.r1.log, the current one is Y
+		g.add(Op{Kind: "rotate", File: 0})
+		g.feature("rotate-running")
+		g.appendOp(0, 2+r.Intn(8))
+		g.finishFile(0)
+	}
+	switch end {
+	case "kill-idle":
+		g.add(Op{Kind: "WAITIDLE"})
+		g.add(Op{Kind: "WAITSAVED", File: 0, Raw: "X", Ms: -1})
+		s.Kill = KillPlan{Mode: "external", DelayMs: 0}
+		g.feature("killed-when-idle")
+	case "term":
+		g.add(Op{Kind: "WAITIDLE"})
+		g.add(Op{Kind: "WAITSAVED", File: 0, Raw: "X", Ms: -1})
+		s.Kill = KillPlan{Mode: "term", DelayMs: 0}
+		g.feature("stopped-with-SIGTERM")
+	default:
+		g.add(Op{Kind: "WAITSAVED", File: 0, Raw: "X", Ms: 250})
+		s.Kill = KillPlan{Mode: "external", DelayMs: 0}
+		g.feature("killed-in-flight")
+	}
+	g.add(Op{Kind: "KILL"})
+	if where == "down" {
+		g.add(Op{Kind: "VANISH", File: 0, Raw: by})
+	}
+	if r.Intn(2) == 0 {
+		g.appendOp(1, 1+r.Intn(6))
+		g.feature("append-down")
+	}
+	g.add(Op{Kind: "START2"})
+	g.add(Op{Kind: "WAITIDLE"}) // the start phase of run 2 is over
+	if where == "running" {
+		g.add(Op{Kind: "VANISH", File: 0, Raw: by})
+		g.add(Op{Kind: "WAITGONE"})
+	}
+	fNew := 0
+	if by == "unlink" && r.Intn(2) == 0 {
+		fNew = 2
+		g.feature("new-file-has-another-name")
+	}
+	var N []int
+	sizeN := 0
+	for sizeN <= sizeX+64 || len(N) < 5 {
+		for _, li := range g.burst(fNew, 1+r.Intn(6)) {
+			N = append(N, li)
+			sizeN += len(s.Lines[li].Text) + 1
+		}
+	}
+	g.add(Op{Kind: "REUSE", File: fNew, Lines: N})
+	g.sleepOp(150)
+	if r.Intn(3) > 0 {
+		g.appendOp(fNew, 1+r.Intn(8))
+		g.feature("append-run2")
+	}
+	if r.Intn(2) == 0 {
+		g.appendOp(1, 1+r.Intn(5))
+	}
 	g.finish()
 	g.add(Op{Kind: "END"})
 	return s
